@@ -17,6 +17,8 @@ func init() {
 		Run: func(c *Ctx) {
 			ruleLockset(c, "R1", "R2")
 			ruleLockOrder(c, "R3")
+			ruleLockOptionReachesTree(c, "R5")
+			ruleGlobals(c, "R6")
 		},
 	})
 }
